@@ -19,6 +19,7 @@ import (
 	"time"
 
 	"mosn.io/api"
+	"mosn.io/mosn/pkg/log"
 	"mosn.io/mosn/pkg/network"
 	"mosn.io/pkg/buffer"
 
@@ -143,6 +144,11 @@ func reencOne(l *reencLink, proto api.XProtocol, input []byte, rounds []reencRou
 
 func runReenc(c *hx.Ctx) {
 	r := c.Rng.Fork()
+	// a recycled buffer that is still in use also corrupts the logger's own pooled buffers: such log lines are not
+	// valid UTF-8 and ./check cannot read them. Nothing below needs the log.
+	lvl := log.DefaultLogger.GetLogLevel()
+	log.DefaultLogger.SetLogLevel(log.FATAL)
+	defer log.DefaultLogger.SetLogLevel(lvl)
 	l := reencDial()
 	defer l.close()
 	for _, name := range framegen.Protos {
